@@ -212,7 +212,10 @@ func TestEveryFinalCode(t *testing.T) {
 }
 
 func TestRandomCommands(t *testing.T) {
-	all := []hx.Outcome{hx.Final, hx.FinalCC, hx.FinalTruncated, hx.Busy, hx.TimeoutCC, hx.Garbage, hx.BadSig, hx.Lost}
+	// besides the property's own alphabet, well-formed replies to other commands
+	// (ordinary, group-extension and OEM network functions) and packets of other
+	// kinds: none of them is a response to this command, so the command is re-sent
+	all := []hx.Outcome{hx.Final, hx.FinalCC, hx.FinalTruncated, hx.Busy, hx.TimeoutCC, hx.Garbage, hx.BadSig, hx.Lost, hx.StrayOK, hx.StrayBusy, hx.StraySetup, hx.StrayASF}
 	ev.Check(t, "TestRandomCommands", ev.PickN(1500, 600000), func(t *rapid.T) {
 		inSession := rapid.Bool().Draw(t, "inSession")
 		n := rapid.IntRange(1, 12).Draw(t, "len")
@@ -241,7 +244,7 @@ func TestRandomCommands(t *testing.T) {
 // held against the contract on its own, whatever the earlier ones ended with
 // (a lost reply inside the session, a refusal, a run of retries).
 func TestCommandSequences(t *testing.T) {
-	all := []hx.Outcome{hx.Final, hx.FinalCC, hx.FinalTruncated, hx.Lost, hx.Busy, hx.TimeoutCC, hx.Garbage, hx.BadSig}
+	all := []hx.Outcome{hx.Final, hx.FinalCC, hx.FinalTruncated, hx.Lost, hx.Busy, hx.TimeoutCC, hx.Garbage, hx.BadSig, hx.StrayOK, hx.StrayASF}
 	ev.Check(t, "TestCommandSequences", ev.PickN(500, 100000), func(t *rapid.T) {
 		c := hx.Creds{User: "admin", Password: []byte("pw"), Priv: 4, Suite: rapid.SampledFrom(hx.Suites12()).Draw(t, "suite"), Seed: rapid.Uint64().Draw(t, "seed")}
 		w := hx.NewWorldFor(c, true)
